@@ -1768,7 +1768,8 @@ class LoopExpression(Expression):
         limit: int | None,
         offset: int | str | None,
     ) -> tuple[Iterator[object], int]:
-        offset_key = f"{self.identifier}-{self.iterable}"
+        # (A name can contain hyphens, not spaces.)
+        offset_key = f"{self.identifier} in {self.iterable}"
 
         if limit is None and offset is None:
             context.stopindex(key=offset_key, index=length)
